@@ -319,6 +319,210 @@ theorem c14_orig_witness_dead :
     subst hr
     simp [init]
 
+/-! ## Termination: "eventually returns" without a fairness assumption
+
+Every action strictly decreases a natural-number measure, so every run of `N` submitters is finite (at most
+`12 * N` steps from the initial state); and in every reachable state a submitter that has not returned yet has an
+enabled action of its own or an enabled pipeline action (`c14_progress`). Hence a run can only stop in a state
+where all `N` submitters have returned, and it must stop. -/
+
+def rank : PC → Nat
+  | .idle => 12
+  | .tracked _ => 11
+  | .sent _ => 6
+  | .reg _ _ => 5
+  | .chk _ _ => 4
+  | .gap _ => 4
+  | .wait _ => 3
+  | .woken _ => 2
+  | .done _ => 0
+  | .panicked => 0
+
+def pipeRank : PPC → Nat
+  | .idle => 0
+  | .notify _ => 1
+  | .setRes _ _ => 2
+  | .work _ => 3
+
+def total : Nat → (Nat → Nat) → Nat
+  | 0, _ => 0
+  | n + 1, f => total n f + f n
+
+/-- The measure: what the `N` submitters and the pipeline thread still have to do. -/
+def mu (N : Nat) (s : St) : Nat :=
+  total N (fun t => rank (s.pc t)) + pipeRank s.pipe + 4 * s.queue.length
+
+/-- The action is a pipeline action or belongs to one of the submitters `0 … N-1`. -/
+def ActBelow (N : Nat) : Act → Prop
+  | .track t => t < N
+  | .send t => t < N
+  | .check t => t < N
+  | .register t => t < N
+  | .await t => t < N
+  | .recheck t => t < N
+  | _ => True
+
+private theorem total_le (N : Nat) (f g : Nat → Nat) (h : ∀ t, f t ≤ g t) : total N f ≤ total N g := by
+  induction N with
+  | zero => simp [total]
+  | succ n ih => simp only [total]; have := h n; omega
+
+private theorem total_rank_upd (pc : Nat → PC) (p' : PC) (N t0 : Nat) (h : t0 < N) :
+    total N (fun t => rank (upd pc t0 p' t)) + rank (pc t0) = total N (fun t => rank (pc t)) + rank p' := by
+  induction N with
+  | zero => omega
+  | succ n ih =>
+    simp only [total]
+    by_cases hn : t0 = n
+    · subst hn
+      have hsame : total t0 (fun t => rank (upd pc t0 p' t)) = total t0 (fun t => rank (pc t)) := by
+        clear ih h
+        -- below t0 nothing changed
+        have : ∀ m, m ≤ t0 → total m (fun t => rank (upd pc t0 p' t)) = total m (fun t => rank (pc t)) := by
+          intro m
+          induction m with
+          | zero => intro _; rfl
+          | succ k ihk =>
+            intro hk
+            simp only [total]
+            have hne : k ≠ t0 := by omega
+            rw [ihk (by omega)]
+            simp [upd, hne]
+        exact this t0 (Nat.le_refl _)
+      rw [hsame]
+      simp [upd]
+      omega
+    · have hlt : t0 < n := by omega
+      have := ih hlt
+      have hne : n ≠ t0 := fun h' => hn h'.symm
+      simp only [upd, hne, if_false]
+      simp only [upd] at this
+      omega
+
+private theorem rank_wake_le (x : Nat) (p : PC) : rank (wake x p) ≤ rank p := by
+  cases p <;> simp only [wake] <;> (try split) <;> simp [rank]
+
+private theorem mu_lt_of_upd (N t : Nat) (ht : t < N) (s s' : St) (p' : PC)
+    (hpc : s'.pc = upd s.pc t p') (hpipe : s'.pipe = s.pipe)
+    (h : rank p' + 4 * s'.queue.length < rank (s.pc t) + 4 * s.queue.length) : mu N s' < mu N s := by
+  have := total_rank_upd s.pc p' N t ht
+  simp only [mu, hpc, hpipe]
+  omega
+
+set_option hygiene false in
+local macro "tid_case" t:term : tactic =>
+  `(tactic| (simp only [ActBelow] at hb
+             simp only [stepFn] at hs
+             (repeat' split at hs) <;>
+               first
+               | contradiction
+               | (simp only [Option.some.injEq] at hs
+                  subst hs
+                  refine mu_lt_of_upd N $t hb s _ _ rfl rfl ?_
+                  simp_all [rank]
+                  try omega)))
+
+set_option hygiene false in
+local macro "pipe_case" : tactic =>
+  `(tactic| (simp only [stepFn] at hs
+             (repeat' split at hs) <;>
+               first
+               | contradiction
+               | (simp only [Option.some.injEq] at hs
+                  subst hs
+                  simp_all [mu, pipeRank]
+                  try omega)))
+
+/-- Every enabled action of the repaired system strictly decreases the measure. -/
+theorem c14_step_decreases (sid : Nat → Nat) (N : Nat) (s s' : St) (a : Act) (hb : ActBelow N a)
+    (hs : stepFn .fixed sid s a = some s') : mu N s' < mu N s := by
+  cases a with
+  | track t => tid_case t
+  | send t => tid_case t
+  | check t => tid_case t
+  | register t => tid_case t
+  | await t => tid_case t
+  | recheck t => tid_case t
+  | recv => pipe_case
+  | remove => pipe_case
+  | setResult => pipe_case
+  | notifyWaiters =>
+    simp only [stepFn] at hs
+    split at hs
+    · rename_i x hx
+      simp only [Option.some.injEq] at hs
+      subst hs
+      have := total_le N (fun t => rank (wake x (s.pc t))) (fun t => rank (s.pc t)) (fun t => rank_wake_le x _)
+      simp only [mu, hx, pipeRank]
+      omega
+    · contradiction
+
+/-- A schedule whose actions all belong to the pipeline or to the submitters `0 … N-1`. -/
+def SchedBelow (N : Nat) (as : List Act) : Prop := ∀ a, a ∈ as → ActBelow N a
+
+/-- C14 (termination): every run of the repaired system is finite — a schedule that can be executed from `s` is
+    no longer than the measure of `s` … -/
+theorem c14_runs_are_finite (sid : Nat → Nat) (N : Nat) (as : List Act) :
+    ∀ (s s' : St), SchedBelow N as → runSched .fixed sid s as = some s' → as.length + mu N s' ≤ mu N s := by
+  induction as with
+  | nil =>
+    intro s s' _ hr
+    simp only [runSched, Option.some.injEq] at hr
+    subst hr
+    simp
+  | cons a as ih =>
+    intro s s' hb hr
+    simp only [runSched] at hr
+    split at hr
+    · rename_i s1 h1
+      have hd := c14_step_decreases sid N s s1 a (hb a (by simp)) h1
+      have := ih s1 s' (fun x hx => hb x (by simp [hx])) hr
+      simp only [List.length_cons]
+      omega
+    · contradiction
+
+theorem mu_init (N : Nat) : mu N init = 12 * N := by
+  have : ∀ n, total n (fun _ => rank PC.idle) = 12 * n := by
+    intro n
+    induction n with
+    | zero => rfl
+    | succ k ih => simp only [total, ih]; simp [rank]; omega
+  simp [mu, init, pipeRank, this]
+
+/-- … in particular `N` submitters are through after at most `12 * N` steps, whatever the interleaving. -/
+theorem c14_terminates (sid : Nat → Nat) (N : Nat) (as : List Act) (s' : St) (hb : SchedBelow N as)
+    (hr : runSched .fixed sid init as = some s') : as.length ≤ 12 * N := by
+  have := c14_runs_are_finite sid N as init s' hb hr
+  rw [mu_init] at this
+  omega
+
+/-- C14 (progress): in every reachable state a submitter that has not returned has an enabled action of its own,
+    or the pipeline thread has one — the system never stops before every `process` call has returned. -/
+theorem c14_progress (sid : Nat → Nat) (s : St) (h : Reach .fixed sid s) (t : Nat)
+    (hnd : ∀ r, s.pc t ≠ .done r) :
+    ∃ a, (a = .track t ∨ a = .send t ∨ a = .check t ∨ a = .register t ∨ a = .await t ∨ a = .recheck t ∨
+          a = .recv ∨ a = .remove ∨ a = .setResult ∨ a = .notifyWaiters) ∧
+      (stepFn .fixed sid s a).isSome = true := by
+  have I := reach_inv sid s h
+  cases hpc : s.pc t with
+  | idle =>
+    cases hpipe : s.pipe with
+    | idle => exact ⟨.track t, by simp, by cases ht : s.tasks (sid t) <;> simp [stepFn, hpc, hpipe, lockHeld, ht]⟩
+    | work e => exact ⟨.track t, by simp, by cases ht : s.tasks (sid t) <;> simp [stepFn, hpc, hpipe, lockHeld, ht]⟩
+    | setRes x e => exact ⟨.setResult, by simp, by simp [stepFn, hpipe]⟩
+    | notify x => exact ⟨.notifyWaiters, by simp, by simp [stepFn, hpipe]⟩
+  | tracked x => exact ⟨.send t, by simp, by simp [stepFn, hpc]⟩
+  | sent x => exact ⟨.register t, by simp, by simp [stepFn, hpc]⟩
+  | gap x => exact absurd hpc (I.noGap t x)
+  | reg x n => exact ⟨.check t, by simp, by cases hr : s.result x <;> simp [stepFn, hpc, hr]⟩
+  | chk x n => exact ⟨.await t, by simp, by simp [stepFn, hpc]⟩
+  | wait x =>
+    obtain ⟨a, ha, he⟩ := c14_pipeline_can_move sid s h t x hpc
+    exact ⟨a, by rcases ha with h1 | h1 | h1 | h1 <;> simp [h1], he⟩
+  | woken x => exact ⟨.recheck t, by simp, by cases hr : s.result x <;> simp [stepFn, hpc, hr]⟩
+  | done r => exact absurd hpc (hnd r)
+  | panicked => exact absurd hpc (I.noPanic t)
+
 /-! ## Non-vacuity: the hypotheses of the theorems are met by concrete reachable states -/
 
 /-- A reachable state of the repaired system in which a submitter really waits (so `c14_no_stuck`,
